@@ -319,6 +319,39 @@ def branch(c):
     return HOOKS['branch'](c)
 
 
+def _factors(t):
+    t = z3.simplify(t)
+    if z3.is_app(t) and t.decl().kind() == z3.Z3_OP_MUL:
+        out = []
+        for ch in t.children():
+            out += _factors(ch)
+        return out
+    return [t]
+
+
+def _cancel(a, b):
+    """a / b when every factor of b occurs among the factors of a (b is known non-zero here): exact cancellation"""
+    if not (is_sym(a) and is_sym(b)):
+        return None
+    fa, fb = _factors(a), _factors(b)
+    rest = list(fa)
+    for f in fb:
+        hit = None
+        for i, g in enumerate(rest):
+            if z3.eq(f, g):
+                hit = i
+                break
+        if hit is None:
+            return None
+        rest.pop(hit)
+    if not rest:
+        return z3.RealVal(1)
+    r = rest[0]
+    for g in rest[1:]:
+        r = r * g
+    return zsimp(r)
+
+
 def f_div(a, b):
     a, b = num(a), num(b)
     if isinstance(a, Poison) or isinstance(b, Poison):
@@ -351,6 +384,9 @@ def f_div(a, b):
         return z3.RealVal(-1)
     if fb is not None:
         return a * z3.RealVal(str(1 / fb))
+    c = _cancel(a, b)
+    if c is not None:
+        return c
     q = ctx().fresh('q')
     ctx().add_def(q, [q * b == a])
     return q
@@ -519,8 +555,22 @@ class Angle:
     def free(name, lo=None, hi=None):
         """a free angle parameter (any real), with its cos/sin pair on the unit circle"""
         c, s, th = z3.Real(name + '.cos'), z3.Real(name + '.sin'), z3.Real(name)
-        ctx().add_def(c, [c * c + s * s == 1])
-        ctx().add_def(s, [c * c + s * s == 1])
+        facts = [c * c + s * s == 1]
+        if lo is not None and hi is not None:
+            # sign of cos/sin per quadrant of the radian value, and exact values on the axes (ties the shadow to the pair)
+            half = PI_F / 2
+            k0, k1 = math.floor(Fraction(lo) / half) - 1, math.ceil(Fraction(hi) / half) + 1
+            sg = [(1, 1), (-1, 1), (-1, -1), (1, -1)]
+            ax = [(1, 0), (0, 1), (-1, 0), (0, -1)]
+            for k in range(k0, k1 + 1):
+                a_, b_ = z3.RealVal(str(k * half)), z3.RealVal(str((k + 1) * half))
+                sc, ss = sg[k % 4]
+                facts.append(z3.Implies(z3.And(th > a_, th < b_), z3.And(c * sc > 0, s * ss > 0)))
+                xc, xs = ax[k % 4]
+                facts.append(z3.Implies(th == a_, z3.And(c == xc, s == xs)))
+        ctx().add_def(c, facts)
+        ctx().add_def(s, facts)
+        ctx().add_def(th, facts)
         a = Atom(name, c, s, th)
         ctx().angle_atoms[name] = a
         return Angle(0, {name: (a, 1)}, th)
